@@ -61,8 +61,13 @@ def int_scene(rng, K):
 def run_scene(case, frame):
     mgr = MC.make_manager(case["task"], frame, tag="c07" + frame, **CFG)
     out = []
+    prev = None
     for fr in case["frames"]:
-        gt = MC.make_gt_frame(fr, frame, tf_mode=case.get("ego_tf", "pose"))
+        if case.get("derived_frames") and prev is not None:
+            gt = MC.make_gt_frame(dict(fr, _prev_gt_frame=prev), frame, tf_mode="derived")
+        else:
+            gt = MC.make_gt_frame(fr, frame, tf_mode=case.get("ego_tf", "pose"))
+        prev = gt
         ests = MC.make_estimates(fr, frame)
         r = mgr.add_frame_result(fr["t"], gt, ests, MC.critical_cfg(mgr, CRIT[case["crit"]]), MC.passfail_cfg(mgr, PF[case["pf"]]))
         out.append((r, gt))
@@ -178,8 +183,9 @@ class RenderingCorr(Corr):
                 jitter(frames)
             # how the EGO-frame rendering carries its transforms: the pose (as the loader does), an empty list, or nothing at all
             ego_tf = ["pose", "pose", "empty", "none"][ci % 4]
+            # later frames derived from the previous (already evaluated) frame object by deepcopy + in-place update of its transforms
             out.append({"task": task, "frames": frames, "crit": rng.randrange(len(CRIT)), "pf": rng.randrange(len(PF)), "ego_tf": ego_tf,
-                        "int_positions": ci % 8 == 5})
+                        "int_positions": ci % 8 == 5, "derived_frames": ego_tf == "pose" and ci % 2 == 1 and K >= 2})
         return out
 
     def run_impl(self, case):
@@ -253,13 +259,14 @@ class RenderingCorr(Corr):
 
     def distribution(self, cases, obs):
         d = {"tasks": {}, "frames": 0, "pairs": 0, "tp": 0, "fp": 0, "fn": 0, "filtered_out_gt": 0, "id_switches_seen": 0,
-             "ego_rendering_transforms": {"pose": 0, "empty": 0, "none": 0}, "scenes_with_int_typed_map_positions": 0}
+             "ego_rendering_transforms": {"pose": 0, "empty": 0, "none": 0}, "scenes_with_int_typed_map_positions": 0, "scenes_with_frames_derived_by_deepcopy": 0}
         for c, o in zip(cases, obs):
             if not isinstance(o, dict) or "ego" not in o:
                 continue
             d["tasks"][c["task"]] = d["tasks"].get(c["task"], 0) + 1
             d["ego_rendering_transforms"][c.get("ego_tf", "pose")] += 1
             d["scenes_with_int_typed_map_positions"] += bool(c.get("int_positions"))
+            d["scenes_with_frames_derived_by_deepcopy"] += bool(c.get("derived_frames"))
             for fr, f in zip(c["frames"], o["ego"]):
                 d["frames"] += 1
                 d["pairs"] += len(f["pairs"])
